@@ -39,7 +39,9 @@ func c01NearSub() *engine.Sub {
 	return &engine.Sub{
 		Name: "principals-one-bit-apart",
 		Rule: "for every fixture key (all algorithms) Y and every identifier X obtained by flipping the lowest bit of ONE byte of Y's key material (every position up to 70 bytes, the first 40 and last 8 of longer keys; for elliptic-curve keys position 0 is the compression tag: X is the mirrored point, same x-coordinate) that did.Parse accepts: chains in which X stands where the rules require Y - the next link's audience, the first link's audience vs the invoker, the delegation's subject vs the invocation's, the root's issuer vs its subject - are refused by both APIs (tokens in memory); non-trivial = identifiers accepted by the parser",
-		Bound: func(string) string { return fmt.Sprintf("%d keys x up to 48 byte positions x 4 configurations x 2 APIs", len(fixtures.All())) },
+		Bound: func(string) string {
+			return fmt.Sprintf("%d keys x up to 48 byte positions x 4 configurations x 2 APIs", len(fixtures.All()))
+		},
 		Setup: func(string) error { chainInit(); return nil },
 		Gen: func(tier string, emit func(any) bool) {
 			for k, fx := range fixtures.All() {
